@@ -468,7 +468,8 @@ def query_obs(a, b, n, raw=False):
     else:
         isin = tf(n in a)
     return ' '.join([tf(a == b), tf(a.issubset(b)), tf(a.issuperset(b)), tf(a < b), tf(a > b), tf(a.isdisjoint(b)),
-                     str(a.size), ln, contig, ipr, iprs, isin, it])
+                     str(a.size), ln, contig, ipr, iprs, isin, it,
+                     tf(a != b), tf(a <= b), tf(a >= b), tf(bool(a)), 's:' + repr(a).encode('utf-8').hex()])
 
 
 def run_impl(ops, raw=False):
@@ -592,7 +593,12 @@ def run_impl(ops, raw=False):
             elif k == 'q':
                 n = build_arg(op[3])
                 toks.append(op_token(op))
-                obs.append(query_obs(sets[op[1]], sets[op[2]], n, raw))
+                a, b = sets[op[1]], sets[op[2]]
+                before = (show_set(a), show_set(b), len(sets))
+                obs.append(query_obs(a, b, n, raw))
+                # a query is not a mutation: both operands (and the slots holding them) are as they were
+                extra['operands_unchanged'] = ((show_set(a), show_set(b), len(sets)) == before
+                                               and sets[op[1]] is a and sets[op[2]] is b)
                 extras.append(extra)
                 continue
             else:
@@ -753,7 +759,8 @@ def ref_query(a, b, narg):
         it = '-'
     return ' '.join([tf(a == b), tf(sub), tf(sup), tf(sub and sz < b.size()), tf(sup and sz > b.size()),
                      tf((a & b).size() == 0), str(sz), ln, tf(contig), ipr, iprs,
-                     ANY if narg[4:5] == ('int',) else tf((n - a).size() == 0), it])
+                     ANY if narg[4:5] == ('int',) else tf((n - a).size() == 0), it,
+                     tf(not (a == b)), tf(sub), tf(sup), tf(sz > 0), show_ref(a)])
 
 
 def run_ref(ops, impl_line):
@@ -822,6 +829,15 @@ def run_ref(ops, impl_line):
         elif k == 'q':
             out.append(ref_query(sets[op[1]], sets[op[2]], op[3]))
     return out
+
+
+REPR_COL = 17               # column of the query row that carries repr(set) as an `s:<hex>` token
+
+
+def repr_col_shown(tok):
+    """the repr column of a query row -> the `[ver:value/plen,...]` list it spells (stdlib parser)"""
+    rp = bytes.fromhex(tok[2:]).decode('utf-8')
+    return plist('%d:%d/%d' % t for t in parse_repr(rp))
 
 
 def parse_repr(rp):
